@@ -43,13 +43,25 @@ var (
 		AbbreviatedKey:     compare.AbbreviatedKeyDisableSlash,
 		FormatKey:          pebble.DefaultComparer.FormatKey,
 		FormatValue:        pebble.DefaultComparer.FormatValue,
-		Separator:          pebble.DefaultComparer.Separator,
+		Separator:          slashSeparator,
 		Split:              pebble.DefaultComparer.Split,
-		Successor:          pebble.DefaultComparer.Successor,
+		Successor:          slashSuccessor,
 		ImmediateSuccessor: pebble.DefaultComparer.ImmediateSuccessor,
 		Name:               "oxia-slash-spans",
 	}
 )
+
+// Pebble's default (bytewise) separator/successor are not ordered consistently with
+// CompareWithSlash: the shortened keys they produce for sstable index blocks can sort
+// outside [a, b), making stored keys unreachable. Returning the key unchanged is
+// always a valid separator/successor.
+func slashSeparator(dst, a, _ []byte) []byte {
+	return append(dst, a...)
+}
+
+func slashSuccessor(dst, a []byte) []byte {
+	return append(dst, a...)
+}
 
 type PebbleFactory struct {
 	dataDir string
